@@ -5,15 +5,19 @@ import (
 	"encoding/json"
 	"fmt"
 	"math/rand"
+	"net"
 	"os"
 	"regexp"
 	"sort"
+	"strings"
 	"sync"
 	"time"
 
 	"github.com/bmeg/grip/gdbi"
 	"github.com/bmeg/grip/gripql"
 	"github.com/bmeg/grip/util"
+	"google.golang.org/grpc"
+	"google.golang.org/grpc/test/bufconn"
 	"google.golang.org/protobuf/types/known/structpb"
 
 	"gripverif/internal/coq"
@@ -124,6 +128,8 @@ func bulkWorker(req json.RawMessage) interface{} {
 	ctx := context.Background()
 	ob := c18Obs{}
 	// bulk
+	viaClient := strings.HasSuffix(in.Driver, "+client")
+	in.Driver = strings.TrimSuffix(in.Driver, "+client")
 	env, err := newSrvEnv(in.Driver)
 	if err != nil {
 		return c18Obs{Error: err.Error()}
@@ -131,15 +137,29 @@ func bulkWorker(req json.RawMessage) interface{} {
 	for _, g := range c18Graphs {
 		env.srv.AddGraph(ctx, &gripql.GraphID{Graph: g})
 	}
-	bs := &bulkStream{fakeStream: fakeStream{ctx}}
-	for _, e := range in.Stream {
-		bs.elems = append(bs.elems, e.proto())
-	}
-	if err := env.srv.BulkAdd(bs); err != nil {
-		ob.Error = "BulkAdd: " + err.Error()
-	}
-	if bs.res != nil {
-		ob.Ins, ob.Err = bs.res.InsertCount, bs.res.ErrorCount
+	if viaClient {
+		// the same server behind a real gRPC connection, loaded by the repository's own client: when Client.BulkAdd
+		// returns, the graphs are read at once
+		res, err := clientBulk(env, in.Stream)
+		if err != nil {
+			ob.Error = "client BulkAdd: " + err.Error()
+		}
+		if res != nil {
+			ob.Ins, ob.Err = res.InsertCount, res.ErrorCount
+		} else if err == nil {
+			ob.Error = "client BulkAdd returned before the server had answered"
+		}
+	} else {
+		bs := &bulkStream{fakeStream: fakeStream{ctx}}
+		for _, e := range in.Stream {
+			bs.elems = append(bs.elems, e.proto())
+		}
+		if err := env.srv.BulkAdd(bs); err != nil {
+			ob.Error = "BulkAdd: " + err.Error()
+		}
+		if bs.res != nil {
+			ob.Ins, ob.Err = bs.res.InsertCount, bs.res.ErrorCount
+		}
 	}
 	ob.Bulk, ob.BulkAnon = dumpGraphs(env)
 	env.close()
@@ -216,6 +236,53 @@ func bulkWorker(req json.RawMessage) interface{} {
 	return ob
 }
 
+// editTap serves the Edit API of a server and keeps the answer of BulkAdd
+type editTap struct {
+	gripql.EditServer
+	mu  sync.Mutex
+	res *gripql.BulkEditResult
+}
+type tapStream struct {
+	gripql.Edit_BulkAddServer
+	t *editTap
+}
+
+func (t *editTap) BulkAdd(s gripql.Edit_BulkAddServer) error {
+	return t.EditServer.BulkAdd(&tapStream{s, t})
+}
+func (s *tapStream) SendAndClose(r *gripql.BulkEditResult) error {
+	s.t.mu.Lock()
+	s.t.res = r
+	s.t.mu.Unlock()
+	return s.Edit_BulkAddServer.SendAndClose(r)
+}
+
+func clientBulk(env *srvEnv, stream []c18Elem) (*gripql.BulkEditResult, error) {
+	lis := bufconn.Listen(1 << 20)
+	gs := grpc.NewServer()
+	tap := &editTap{EditServer: env.srv}
+	gripql.RegisterEditServer(gs, tap)
+	go gs.Serve(lis)
+	defer gs.Stop()
+	conn, err := grpc.Dial("bufnet", grpc.WithContextDialer(func(context.Context, string) (net.Conn, error) { return lis.Dial() }), grpc.WithInsecure())
+	if err != nil {
+		return nil, err
+	}
+	defer conn.Close()
+	cl := gripql.WrapClient(nil, gripql.NewEditClient(conn), nil, nil)
+	ch := make(chan *gripql.GraphElement, 10)
+	go func() {
+		for _, e := range stream {
+			ch <- e.proto()
+		}
+		close(ch)
+	}()
+	err = cl.BulkAdd(ch)
+	tap.mu.Lock()
+	defer tap.mu.Unlock()
+	return tap.res, err
+}
+
 func c18Stream(rng *rand.Rand, n int) []c18Elem {
 	out := []c18Elem{}
 	graphs := []string{"g1", "g1", "g1", "g2", "g2", "nope", "g1__schema__", ""}
@@ -276,7 +343,7 @@ func runC18(ctx *Ctx) error {
 	ctx.CaseTy = "c18_case"
 	ctx.Shard = 25
 	ctx.Scope = "N_scope"
-	ctx.Rule = "element streams through the server's BulkAdd (fake client stream, in-process server, badger and pebble) and the same elements through AddVertex/AddEdge one at a time on a second fresh server: lengths 0,1,2,49,50,51,99,100,101,150,260 and random lengths, exact multiples of the batch size, runs of elements for g1/g2 interleaved with a missing graph and a schema graph, 12 vertex ids and 6 edge ids reused throughout (later writes overwrite earlier ones), invalid vertices (empty gid/label, reserved or malformed field names), invalid edges (empty label/from/to, reserved field), elements with neither or both of vertex and edge, edges without id; the g1 elements of every stream also go through util.StreamBatch with batch sizes 1..50 and recording callbacks; observed: the batches it hands out, InsertCount/ErrorCount, the vertices and edges of both graphs after each way of loading, acknowledged and refused single adds; non-trivial = a stream that switches graph at least twice and contains an invalid element; distinct by input"
+	ctx.Rule = "element streams through the server's BulkAdd (fake client stream, in-process server, badger and pebble; one stream in five through gripql.Client.BulkAdd over an in-memory gRPC connection to that server, the graphs read the moment the client call returns) and the same elements through AddVertex/AddEdge one at a time on a second fresh server: lengths 0,1,2,49,50,51,99,100,101,150,260 and random lengths, exact multiples of the batch size, runs of elements for g1/g2 interleaved with a missing graph and a schema graph, 12 vertex ids and 6 edge ids reused throughout (later writes overwrite earlier ones), invalid vertices (empty gid/label, reserved or malformed field names), invalid edges (empty label/from/to, reserved field), elements with neither or both of vertex and edge, edges without id; the g1 elements of every stream also go through util.StreamBatch with batch sizes 1..50 and recording callbacks; observed: the batches it hands out, InsertCount/ErrorCount, the vertices and edges of both graphs after each way of loading, acknowledged and refused single adds; non-trivial = a stream that switches graph at least twice and contains an invalid element; distinct by input"
 	var inputs []c18Input
 	if ctx.Replay != nil {
 		var in c18Input
@@ -291,6 +358,14 @@ func runC18(ctx *Ctx) error {
 				drv = "pebble"
 			}
 			inputs = append(inputs, c18Input{Stream: c18Stream(ctx.Rng, n), Driver: drv, BatchK: []int{50, 1, 7, 25}[i%4]})
+			if i%3 == 1 {
+				// through the repository's own client (gripql.Client.BulkAdd) over a gRPC connection to the same server
+				inputs = append(inputs, c18Input{Stream: c18Stream(ctx.Rng, n), Driver: "badger+client", BatchK: 50})
+			}
+			if i%3 == 0 {
+				// the same through a driver whose bulk load is util.StreamBatch (it checks the graph named in every element)
+				inputs = append(inputs, c18Input{Stream: c18Stream(ctx.Rng, n), Driver: "badger+batch", BatchK: 50})
+			}
 		}
 		// exact multiples of the batch size for util.StreamBatch: k valid vertices / edges of g1 in a row
 		for _, k := range []int{1, 2, 5, 50} {
@@ -310,6 +385,12 @@ func runC18(ctx *Ctx) error {
 			drv := "badger"
 			if i%3 == 2 {
 				drv = "pebble"
+			}
+			if i%5 == 4 {
+				drv = "badger+batch"
+			}
+			if i%5 == 1 {
+				drv = "badger+client"
 			}
 			inputs = append(inputs, c18Input{Stream: c18Stream(ctx.Rng, ctx.Rng.Intn(70)), Driver: drv, BatchK: 1 + ctx.Rng.Intn(9)})
 		}
